@@ -2,10 +2,10 @@
 # Evaluates every delivered seeded variant that has not been evaluated yet: confirm + run the target property's
 # quick check against a scratch copy with the patch. Appends to /tmp/seeded-results.log.
 cd "$(dirname "$0")/.." || exit 2
-LOG=/tmp/seeded-results.log
+LOG="${SEEDED_LOG:-/tmp/seeded-results.log}"
 for P in C03 C04 C05 C06 C07 C09 C10 C11 C12 C13 C15 C16 C17 C18; do
   for X in a b; do
-    D="/tmp/seeded-out/$P/variant_$X"
+    D="${SEEDED_OUT:-/tmp/seeded-out}/$P/variant_$X"
     [ -f "$D/patch.diff" ] && [ -f "$D/demo.rs" ] || continue
     grep -q "^DONE $P $X" $LOG 2>/dev/null && continue
     ./tools/confirm_seeded.sh $P $X >> $LOG 2>&1
